@@ -11,6 +11,7 @@ import (
 	"net/url"
 	"sort"
 	"strings"
+	"sync"
 	"time"
 
 	"github.com/buzzfeed/sso/internal/auth"
@@ -28,15 +29,177 @@ type authCfg struct {
 	HTTPOnly bool          `json:"cookie_httponly"`
 	Domain   string        `json:"cookie_domain"`
 	Slug     string        `json:"slug"`
+	Name     string        `json:"cookie_name,omitempty"` // "" = the default
+	Scheme   string        `json:"scheme,omitempty"`      // "" = the default (https)
+	Host     string        `json:"host,omitempty"`        // "" = sso-auth.sso.test
 	Timeout  time.Duration `json:"-"`
 	as       *sut.AuthStack
 	idp      *sut.FakeIdP
 	learned  map[string]string
+	required map[string]string // the authenticator's security header set (names: authSecuritySet; values: default-options authenticator)
+}
+
+// authSecuritySet is "its security header set": the six names sso-auth's setHeaders middleware is
+// declared with (internal/auth/middleware.go, the property's anchor). The statement makes them
+// unconditional: no option of the authenticator is documented to take one away.
+var authSecuritySet = []string{"Strict-Transport-Security", "X-Frame-Options", "X-Content-Type-Options", "X-XSS-Protection",
+	"Content-Security-Policy", "Referrer-Policy"}
+
+// knobs lists the options of c that differ from the defaults.
+func (c *authCfg) knobs() []string {
+	var k []string
+	if !c.Secure {
+		k = append(k, "cookie_secure=false")
+	}
+	if !c.HTTPOnly {
+		k = append(k, "cookie_httponly=false")
+	}
+	if c.Domain != "" {
+		k = append(k, "cookie_domain=set")
+	}
+	if c.Name != "" {
+		k = append(k, "cookie_name=changed")
+	}
+	if c.Scheme == "http" {
+		k = append(k, "scheme=http")
+	}
+	if c.Host != "" {
+		k = append(k, "host=changed")
+	}
+	return k
+}
+
+// withKnob returns the default configuration with one option of c applied.
+func (c *authCfg) withKnob(k string) *authCfg {
+	d := &authCfg{Index: -1, Secure: true, HTTPOnly: true, Slug: "okta"}
+	switch k {
+	case "cookie_secure=false":
+		d.Secure = false
+	case "cookie_httponly=false":
+		d.HTTPOnly = false
+	case "cookie_domain=set":
+		d.Domain = c.Domain
+	case "cookie_name=changed":
+		d.Name = c.Name
+	case "scheme=http":
+		d.Scheme = "http"
+	case "host=changed":
+		d.Host = c.Host
+	}
+	return d
+}
+
+// authReference asks a running authenticator for two reference answers from different gates (the HTML
+// error of /sign_in, the bare 4xx of /validate) and returns the security headers of each.
+func authReference(as *sut.AuthStack) []map[string]string {
+	refs := []wreq{
+		{Host: as.Host, Target: as.Path("sign_in")},
+		{Host: as.Host, Target: as.Path("validate") + "?client_id=" + as.ClientID, Headers: [][2]string{{"X-Client-Secret", as.ClientSecret}}},
+	}
+	var sets []map[string]string
+	for _, rq := range refs {
+		res := do(as.Addr, rq)
+		if res.Final == nil {
+			return nil
+		}
+		m := map[string]string{}
+		for _, h := range securityVocabulary {
+			if v := res.Final.values(h); len(v) > 0 {
+				m[h] = v[0]
+			}
+		}
+		sets = append(sets, m)
+	}
+	return sets
+}
+
+// authSecurityValues are the values of sso-auth's security header set (internal/auth/middleware.go at the
+// pinned commit); a change that weakens a value for every configuration alike must not pass as "the
+// reference says so".
+var authSecurityValues = map[string]string{
+	"Strict-Transport-Security": "max-age=31536000",
+	"X-Frame-Options":           "DENY",
+	"X-Content-Type-Options":    "nosniff",
+	"X-XSS-Protection":          "1; mode=block",
+	"Content-Security-Policy":   "default-src 'none'; style-src 'self'; img-src 'self';",
+	"Referrer-Policy":           "Same-origin",
+}
+
+// authRequiredSet fixes what every configuration is held to: the names of authSecuritySet with the
+// values an authenticator with default options sends (one reference authenticator per run).
+func authRequiredSet(rep *vh.Report) map[string]string {
+	d := &authCfg{Index: -1, Secure: true, HTTPOnly: true, Slug: "okta"}
+	if err := newAuthRig(d); err != nil {
+		rep.Inconclusive("default-options authenticator did not start: " + err.Error())
+		return nil
+	}
+	defer d.close()
+	sets := authReference(d.as)
+	if sets == nil {
+		rep.Inconclusive("no reference response from the default-options authenticator")
+		return nil
+	}
+	req := map[string]string{}
+	for _, h := range authSecuritySet {
+		for _, m := range sets {
+			if v, ok := m[h]; ok && req[h] == "" {
+				req[h] = v
+			}
+		}
+		if req[h] == "" {
+			rep.Violate(authStream, -1, fmt.Sprintf("auth: %s missing from the security header set config=defaults", h),
+				fmt.Sprintf("an authenticator with default options answers /sign_in and /validate without %s", h), d)
+			delete(req, h)
+			continue
+		}
+		if want := authSecurityValues[h]; want != req[h] {
+			rep.Violate(authStream, -1, fmt.Sprintf("auth: %s wrong-value in the security header set config=defaults", h),
+				fmt.Sprintf("an authenticator with default options sends %s: %q, the security header set of the pinned sources says %q", h, req[h], want), d)
+			req[h] = want
+		}
+		rep.SetAdd("auth_required_security_headers", h+": "+req[h])
+	}
+	return req
+}
+
+var (
+	authKnobMu    sync.Mutex
+	authKnobCache = map[string]bool{}
+)
+
+// authKnobDrops tells whether an authenticator with only option k away from the defaults leaves h out
+// of its reference answers (used to name the option in a signature; never decides a verdict).
+func authKnobDrops(c *authCfg, k, h string) bool {
+	authKnobMu.Lock()
+	defer authKnobMu.Unlock()
+	key := k + "|" + h
+	if v, ok := authKnobCache[key]; ok {
+		return v
+	}
+	d := c.withKnob(k)
+	drops := false
+	if newAuthRig(d) == nil {
+		if sets := authReference(d.as); sets != nil {
+			drops = true
+			for _, m := range sets {
+				if _, ok := m[h]; ok {
+					drops = false
+				}
+			}
+		}
+		d.close()
+	}
+	authKnobCache[key] = drops
+	return drops
 }
 
 func newAuthRig(c *authCfg) error {
 	idp := sut.NewFakeIdP()
-	as := &sut.AuthStack{Host: "sso-auth.sso.test", Slug: c.Slug, ClientID: "proxy-client-id", ClientSecret: "proxy-client-secret",
+	host := "sso-auth.sso.test"
+	if c.Host != "" {
+		host = c.Host
+	}
+	as := &sut.AuthStack{Host: host, Slug: c.Slug, ClientID: "proxy-client-id", ClientSecret: "proxy-client-secret",
 		IdPClientID: "idp-client-id", IdPSecret: "idp-client-secret", IdP: idp}
 	as.Opts = sut.AuthOpts{Host: as.Host, Lifetime: sut.LifetimeTTL, Slug: c.Slug}
 	cfg := auth.DefaultAuthConfig()
@@ -55,6 +218,12 @@ func newAuthRig(c *authCfg) error {
 	cfg.SessionConfig.CookieConfig.Domain = c.Domain
 	cfg.SessionConfig.CookieConfig.Secure = c.Secure
 	cfg.SessionConfig.CookieConfig.HTTPOnly = c.HTTPOnly
+	if c.Name != "" {
+		cfg.SessionConfig.CookieConfig.Name = c.Name
+	}
+	if c.Scheme != "" {
+		cfg.ServerConfig.Scheme = c.Scheme
+	}
 	cfg.ServerConfig.Host = as.Host
 	cfg.ServerConfig.TimeoutConfig.Request = 45 * time.Second
 	if c.Timeout != 0 {
@@ -119,6 +288,9 @@ var authFloors = map[string]int{
 	"auth_status_201": 3, "auth_status_500": 3, "auth_json_errors": 10,
 	"auth_set_cookie_session_set": 5, "auth_set_cookie_session_clear": 10, "auth_set_cookie_csrf_set": 10, "auth_set_cookie_csrf_clear": 3,
 	"auth_callback_success": 3, "auth_sign_in_code_issued": 3,
+	"auth_responses_config_cookie_secure=false": 100, "auth_responses_config_cookie_httponly=false": 100, "auth_responses_config_cookie_domain=set": 50,
+	"auth_responses_config_cookie_name=changed": 50, "auth_responses_config_scheme=http": 50, "auth_responses_config_host=changed": 50,
+	"auth_responses_config_defaults": 50,
 }
 
 type authObs struct {
@@ -141,8 +313,12 @@ func runAuthWorkload(rep *vh.Report, env vh.Env) {
 	if skip {
 		return
 	}
-	nCfg := env.Pick(4, 8)
+	nCfg := env.Pick(6, 10)
 	per := env.Pick(110, 700)
+	required := authRequiredSet(rep)
+	if required == nil {
+		return
+	}
 	for ci := 0; ci < nCfg; ci++ {
 		lo := ci * per
 		if only >= 0 && (only < lo || only >= lo+per) {
@@ -153,10 +329,24 @@ func runAuthWorkload(rep *vh.Report, env vh.Env) {
 		if ci%4 >= 1 && r.Intn(2) == 0 || ci == 3 {
 			c.Domain = []string{"sso.test", ".sso.test"}[r.Intn(2)]
 		}
+		// further documented options (drawn last: the draws above stay what they were); configuration 0
+		// keeps every default except the slug
+		if ci > 0 {
+			c.Name = []string{"", "_sso_auth2", "sso"}[r.Intn(3)]
+			c.Scheme = []string{"", "http", "https"}[r.Intn(3)]
+			c.Host = []string{"", "login.sso.test"}[r.Intn(2)]
+			switch ci {
+			case 4:
+				c.Name, c.Host = "_sso_auth2", "login.sso.test"
+			case 5:
+				c.Scheme = "http"
+			}
+		}
 		if err := newAuthRig(c); err != nil {
 			rep.Inconclusive("authenticator did not start: " + err.Error())
 			continue
 		}
+		c.required = required
 		runAuthCfg(rep, env, c, lo, per, only)
 		c.close()
 	}
@@ -199,6 +389,12 @@ func authJudge(rep *vh.Report, idx int, c *authCfg, o *authObs, w *wresp, reqHos
 	rep.Count("auth_responses", 1)
 	rep.Count("auth_endpoint_"+o.Endpoint, 1)
 	rep.Count(fmt.Sprintf("auth_status_%d", w.Status), 1)
+	for _, k := range c.knobs() {
+		rep.Count("auth_responses_config_"+k, 1)
+	}
+	if len(c.knobs()) == 0 {
+		rep.Count("auth_responses_config_defaults", 1)
+	}
 	if strings.Contains(w.get("Content-Type"), "application/json") && w.Status >= 400 {
 		rep.Count("auth_json_errors", 1)
 	}
@@ -210,7 +406,7 @@ func authJudge(rep *vh.Report, idx int, c *authCfg, o *authObs, w *wresp, reqHos
 		}
 	}
 	o.Cookies = w.values("Set-Cookie")
-	rep.Distinct(fmt.Sprintf("auth|%v|%v|%v|%s|%s|%s|%v|%d", c.Secure, c.HTTPOnly, c.Domain != "", o.Endpoint, o.Flavour, o.Method, o.JSON, w.Status))
+	rep.Distinct(fmt.Sprintf("auth|%v|%v|%v|%s|%s|%s|%v|%d|%v|%s|%v", c.Secure, c.HTTPOnly, c.Domain != "", o.Endpoint, o.Flavour, o.Method, o.JSON, w.Status, c.Name != "", c.Scheme, c.Host != ""))
 	if idx%211 == 0 {
 		rep.Sample(o)
 	}
@@ -301,27 +497,13 @@ func authJudge(rep *vh.Report, idx int, c *authCfg, o *authObs, w *wresp, reqHos
 func authLearn(rep *vh.Report, c *authCfg) bool {
 	as := c.as
 	c.learned = map[string]string{}
-	// two reference answers from different gates: an HTML error of /sign_in and the bare 4xx of /validate
-	refs := []wreq{
-		{Host: as.Host, Target: as.Path("sign_in")},
-		{Host: as.Host, Target: as.Path("validate") + "?client_id=" + as.ClientID, Headers: [][2]string{{"X-Client-Secret", as.ClientSecret}}},
+	sets := authReference(as)
+	if sets == nil {
+		rep.Inconclusive("no reference response from the authenticator")
+		return false
 	}
-	var sets []map[string]string
-	for _, rq := range refs {
-		res := do(as.Addr, rq)
-		if res.Final == nil {
-			rep.Inconclusive("no reference response from the authenticator")
-			return false
-		}
-		m := map[string]string{}
-		for _, h := range securityVocabulary {
-			if v := res.Final.values(h); len(v) > 0 {
-				m[h] = v[0]
-			}
-		}
-		sets = append(sets, m)
-	}
-	// the required set is the union; a name only one reference carries is thereby reported as missing on the other's endpoint
+	// what this configuration sends beyond the required set is required of all its endpoints too (union: a
+	// name only one reference carries is thereby reported as missing on the other's endpoint)
 	for _, m := range sets {
 		for h, v := range m {
 			c.learned[h] = v
@@ -329,6 +511,38 @@ func authLearn(rep *vh.Report, c *authCfg) bool {
 	}
 	for h, v := range c.learned {
 		rep.SetAdd("auth_learned_security_headers", h+": "+v)
+	}
+	// the security header set itself does not depend on the configuration
+	for h, want := range c.required {
+		_, sent := c.learned[h]
+		c.learned[h] = want
+		rep.Count("auth_config_checked_against_required_set", 1)
+		if sent {
+			continue
+		}
+		// this configuration leaves h out of both reference answers: one witness class per option, not one per
+		// endpoint and response class
+		cause := "combination"
+		for _, k := range c.knobs() {
+			if authKnobDrops(c, k, h) {
+				cause = k
+				break
+			}
+		}
+		if len(c.knobs()) == 0 {
+			cause = "defaults"
+		}
+		rep.Violate(authStream, -1, fmt.Sprintf("auth: %s missing from the security header set config=%s", h, cause),
+			fmt.Sprintf("an authenticator configured %v answers /sign_in and /validate without %s (an authenticator with default options sends %q); of these options, alone on top of the defaults, the first that takes the header away is: %s",
+				c.knobs(), h, want, cause), c)
+		delete(c.learned, h)
+		rep.Count("auth_header_dropped_by_configuration", 1)
+	}
+	for _, k := range c.knobs() {
+		rep.Count("auth_config_"+k, 1)
+	}
+	if len(c.knobs()) == 0 {
+		rep.Count("auth_config_defaults", 1)
 	}
 	if len(c.learned) == 0 {
 		rep.Violate(authStream, -1, "auth: no security header on the reference responses", "neither /sign_in nor /validate answered with any known security header", c)
